@@ -229,6 +229,98 @@ impl Report {
     }
 }
 
+// ---- resource watchdog ------------------------------------------------------------------------------
+// Every worker publishes the case it is executing. A watchdog thread samples the process' resident set
+// and the age of the oldest running case. A render that allocates gigabytes (e.g. a column count that
+// wrapped around) would otherwise end in an allocation-failure abort or an OOM kill that takes the
+// whole lane with it; the watchdog turns it into a named case. Memory blow-up is reported by the
+// driver as a violation (`resource-blowup [memory]`, replayable); a case that is merely old is
+// reported as inconclusive -- wall-clock age is never a verdict.
+const SLOTS: usize = 256;
+#[allow(clippy::declare_interior_mutable_const)]
+const ZERO: AtomicU64 = AtomicU64::new(0);
+static CUR: [AtomicU64; SLOTS] = [ZERO; SLOTS];
+static SINCE: [AtomicU64; SLOTS] = [ZERO; SLOTS];
+static NEXT_SLOT: AtomicU64 = AtomicU64::new(0);
+static LANE_TAG: AtomicU64 = AtomicU64::new(0);
+static T0: std::sync::OnceLock<std::time::Instant> = std::sync::OnceLock::new();
+
+fn now_ms() -> u64 {
+    T0.get_or_init(std::time::Instant::now).elapsed().as_millis() as u64
+}
+
+/// Sub-lanes whose replay specs carry a one-letter prefix announce it before `run_parallel`.
+pub fn set_lane_tag(tag: Option<char>) {
+    LANE_TAG.store(tag.map(|c| c as u64).unwrap_or(0), Ordering::Relaxed);
+}
+
+fn case_spec(idx: u64) -> String {
+    let tag = LANE_TAG.load(Ordering::Relaxed);
+    let t = if tag == 0 { String::new() } else { char::from_u32(tag as u32).unwrap_or('?').to_string() };
+    format!("{t}{}:{idx}", current_seed())
+}
+
+fn rss_bytes() -> u64 {
+    std::fs::read_to_string("/proc/self/statm")
+        .ok()
+        .and_then(|s| s.split_whitespace().nth(1).and_then(|v| v.parse::<u64>().ok()))
+        .map(|pages| pages * 4096)
+        .unwrap_or(0)
+}
+
+pub fn start_watchdog(out: String, fallback_case: Option<String>) {
+    now_ms();
+    let limit = std::env::var("VH_RSS_LIMIT_MB").ok().and_then(|s| s.parse::<u64>().ok()).unwrap_or(8192) << 20;
+    let max_age = std::env::var("VH_CASE_TIMEOUT_S").ok().and_then(|s| s.parse::<u64>().ok()).unwrap_or(900) * 1000;
+    std::thread::spawn(move || loop {
+        std::thread::sleep(std::time::Duration::from_millis(20));
+        let rss = rss_bytes();
+        let now = now_ms();
+        let mut running: Vec<(u64, u64)> = Vec::new();
+        for s in 0..SLOTS {
+            let c = CUR[s].load(Ordering::Relaxed);
+            if c != 0 {
+                running.push((SINCE[s].load(Ordering::Relaxed), c - 1));
+            }
+        }
+        running.sort();
+        let oldest = running.first().copied();
+        let kind = if rss > limit {
+            "memory"
+        } else if oldest.map_or(false, |(since, _)| now.saturating_sub(since) > max_age) {
+            "stuck"
+        } else {
+            continue;
+        };
+        let case = match (oldest, &fallback_case) {
+            (_, Some(c)) => c.clone(),
+            (Some((_, idx)), None) => case_spec(idx),
+            (None, None) => String::from("?"),
+        };
+        let others: Vec<String> = running.iter().skip(1).map(|(_, i)| format!("\"{}\"", case_spec(*i))).collect();
+        let body = format!(
+            "{{\"kind\":\"{kind}\",\"rss_mb\":{},\"case\":\"{case}\",\"age_ms\":{},\"also_running\":[{}]}}",
+            rss >> 20,
+            oldest.map_or(0, |(since, _)| now.saturating_sub(since)),
+            others.join(",")
+        );
+        let _ = std::fs::write(format!("{out}.watchdog"), body);
+        eprintln!("watchdog: {kind} rss={} MiB case={case}", rss >> 20);
+        std::process::exit(if kind == "memory" { 3 } else { 4 });
+    });
+}
+
+/// `run_parallel` for a sub-lane whose replay specs start with `tag`.
+pub fn run_parallel_tagged<F>(tag: char, n: u64, workers: usize, f: F) -> Report
+where
+    F: Fn(u64) -> CaseOut + Sync,
+{
+    set_lane_tag(Some(tag));
+    let r = run_parallel(n, workers, f);
+    set_lane_tag(None);
+    r
+}
+
 /// Run `n` cases on `workers` threads. Case indices are handed out dynamically; the merged
 /// report does not depend on the schedule (sets, sums, maxima, lowest-index samples).
 pub fn run_parallel<F>(n: u64, workers: usize, f: F) -> Report
@@ -243,12 +335,15 @@ where
     std::thread::scope(|s| {
         for _ in 0..workers.max(1) {
             s.spawn(|| {
+                let slot = (NEXT_SLOT.fetch_add(1, Ordering::Relaxed) as usize) % SLOTS;
                 let mut local = Report::default();
                 loop {
                     let i = next.fetch_add(1, Ordering::Relaxed);
                     if i >= n || violations_seen.load(Ordering::Relaxed) >= 40 {
                         break;
                     }
+                    SINCE[slot].store(now_ms(), Ordering::Relaxed);
+                    CUR[slot].store(i + 1, Ordering::Relaxed);
                     // a panic that escapes a case (e.g. a public getter panicking inside an oracle)
                     // is an observation, not a reason to lose the whole run
                     let out = match std::panic::catch_unwind(std::panic::AssertUnwindSafe(|| f(i))) {
@@ -267,17 +362,19 @@ where
                                 features: vec!["escaped-the-case".into()],
                                 detail: format!("case {i} panicked outside any guarded call: {msg}"),
                                 witness: J::from(format!("case index {i}")),
-                                replay: format!("{}:{i}", crate::report::current_seed()),
+                                replay: case_spec(i),
                             }));
                             co
                         }
                     };
+                    CUR[slot].store(0, Ordering::Relaxed);
                     // (only for the blocking kinds: runs with recorded known findings must not be cut)
                     if matches!(&out.verdict, Verdict::Violated(v) if v.rule == "deadlock" || v.rule.starts_with("ticker")) {
                         violations_seen.fetch_add(1, Ordering::Relaxed);
                     }
                     local.add(i, out);
                 }
+                CUR[slot].store(0, Ordering::Relaxed);
                 total.lock().unwrap().merge(local);
             });
         }
